@@ -61,7 +61,7 @@ def run(tier, seed, rng):
                     fields.append({'move': None, 'body': ('elem', ('leaf', ('int', rng.choice([1, 2, 4, 8, 3]), rng.random() < 0.4,
                                                                               rng.choice([None, 'big', 'little']), 0)))})
                 else:
-                    m = rng.choice([0, 1, 2, 3])
+                    m = rng.choice([0, 1, 2, 3, 3, 11, 22, 100, 12, 16, 33])      # sizes whose struct code has several (equal) digits too
                     fields.append({'move': None, 'body': ('elem', ('leaf', ('dsized', ('lit', m), 'const', b'')))})
             table[len(table)] = dict(end=rng.choice([None, 'little']), align=None, sbl=None, gp=True, gu=True, vec=True, ann=True, fields=fields)
         vg = gen.ValGen(rng, table)
